@@ -1,7 +1,7 @@
 (* Driver entry for the designer front-end model (C04, C05, C15). *)
 From Coq Require Import List String Ascii Arith Bool.
 From Coq Require Import ZArith.
-From PC Require Import Base.Sexp Comp.Syntax Design.Designer Design.DesignerProofs Design.TemplateProofs Design.DGraph Design.DenoteTie SSM.Contract SSM.Search SSM.ValidProofs Run.RComp.
+From PC Require Import Base.Sexp Comp.Syntax Design.Designer Design.DesignerProofs Design.TemplateProofs Design.DGraph Design.DenoteTie Design.Results SSM.Contract SSM.Search SSM.ValidProofs Run.RComp.
 Import ListNotations.
 Local Open Scope string_scope.
 
@@ -31,6 +31,21 @@ Definition run_denote (req : sexp) : sexp :=
   | Li [lines] => match dL d_pline lines with
                   | Some ls => Li [sL sB (denote_flags ls false); sL sB (denote_flags ls true)]
                   | None => bad_request end
+  | _ => bad_request
+  end.
+
+(* C06: process_results + output(findmfe=False): the records of the .mfe file for a designed string *)
+Definition run_results (req : sexp) : sexp :=
+  match req with
+  | Li [lines; so; At nts] =>
+      match dL d_pline lines, dB so with
+      | Some ls, Some so =>
+          match design_results ls so (chars nts) with
+          | OK recs => Li [At "ok"; sL (fun nv => Li [At (fst nv); At (unchars (snd nv))]) recs]
+          | Err k => Li [At "err"; At k]
+          end
+      | _, _ => bad_request
+      end
   | _ => bad_request
   end.
 
